@@ -7,7 +7,8 @@ from collections import Counter, defaultdict
 from .. import build, gen, model, runner, spec_lowlevel as S, sweep
 from ..scen import Scn, call, up
 
-ADDRS = [(0, 0, 0), (1, 0, 0), (2, 5, 0), (3, 254, 253)]
+# incl. pairs of nodes that share a high (>= 0x80) second- / third-level byte under different parents: every node has its own flow-control state
+ADDRS = [(0, 0, 0), (1, 0, 0), (2, 5, 0), (3, 254, 253), (1, 200, 0), (2, 200, 0), (4, 254, 253), (1, 1, 144), (1, 2, 144)]
 TESTCFG = os.path.join(build.REPO, 'test', 'unit', 'state_tests_config')
 
 def bus_lines(nodes=ADDRS):
